@@ -27,6 +27,7 @@ type pkg struct {
 	Path   string   "json:\"path\""
 	Expect string   "json:\"expect\""
 	Fields []string "json:\"fields\""
+	Methods []string "json:\"methods\""
 	Values int      "json:\"values\""
 	Seed   uint64   "json:\"seed\""
 }
@@ -39,9 +40,37 @@ type result struct {
 	Reflect    bool     "json:\"reflect\""
 	Presence   []bool   "json:\"presence\""
 	Packed     []bool   "json:\"packed\""
+	Methods    []method "json:\"methods\""
 	Messages   int      "json:\"messages\""
 	Values     int      "json:\"values\""
 	Notes      []string "json:\"notes\""
+}
+
+type method struct {
+	In  string "json:\"in\""
+	Out string "json:\"out\""
+	CS  bool   "json:\"cs\""
+	SS  bool   "json:\"ss\""
+}
+
+// typeRef names a message the way the services items do: relative to the file's package, Empty for the imported
+// well-known type; a placeholder (an unresolved reference) gets a question mark.
+func typeRef(fd protoreflect.FileDescriptor, md protoreflect.MessageDescriptor) string {
+	if md == nil {
+		return "<nil>"
+	}
+	n := string(md.FullName())
+	if p := string(fd.Package()) + "."; len(n) > len(p) && n[:len(p)] == p {
+		n = n[len(p):]
+	} else if n == "google.protobuf.Empty" {
+		n = "Empty"
+	}
+	if md.IsPlaceholder() {
+		n += "?"
+	} else if d, err := protoregistry.GlobalFiles.FindDescriptorByName(md.FullName()); err != nil || d != protoreflect.Descriptor(md) {
+		n += "!" // not the descriptor that is registered under this name
+	}
+	return n
 }
 
 func main() {
@@ -70,7 +99,7 @@ func (r *result) note(f string, a ...any) {
 }
 
 func check(p pkg) (res *result) {
-	res = &result{ID: p.ID, Wire: true, JSON: true, Reflect: true, Presence: []bool{}, Packed: []bool{}, Notes: []string{}}
+	res = &result{ID: p.ID, Wire: true, JSON: true, Reflect: true, Presence: []bool{}, Packed: []bool{}, Methods: []method{}, Notes: []string{}}
 	defer func() {
 		if x := recover(); x != nil {
 			res.Wire, res.JSON, res.Reflect = false, false, false
@@ -124,6 +153,17 @@ func check(p pkg) (res *result) {
 			continue
 		}
 		res.Presence, res.Packed = append(res.Presence, d.HasPresence()), append(res.Packed, d.IsPacked())
+	}
+	// 2b. services: what the registered descriptor reports for the listed methods
+	for _, mn := range p.Methods {
+		dd, _ := protoregistry.GlobalFiles.FindDescriptorByName(protoreflect.FullName(mn))
+		md, _ := dd.(protoreflect.MethodDescriptor)
+		if md == nil {
+			res.note("method %s not found", mn)
+			res.Methods = append(res.Methods, method{In: "<missing>", Out: "<missing>"})
+			continue
+		}
+		res.Methods = append(res.Methods, method{In: typeRef(fd, md.Input()), Out: typeRef(fd, md.Output()), CS: md.IsStreamingClient(), SS: md.IsStreamingServer()})
 	}
 	// 3. every message type against dynamicpb
 	r := rand.New(rand.NewPCG(p.Seed, 41))
